@@ -7,7 +7,8 @@ import tempfile
 import vlib
 
 PID = "C01"
-THEOREMS = ["c01_registry_correct", "c01_monitor_meaning", "c01_eventually_always_reading"]
+THEOREMS = ["c01_registry_correct", "c01_monitor_meaning", "c01_eventually_always_reading",
+            "c01_observations_are_the_predicate_values"]
 GEN = os.path.join(vlib.COQ, "gen")
 MODS = ["always", "never", "not always", "eventually", "always eventually",
         "eventually always", "once", "twice", "thrice", "at most once"]
